@@ -24,7 +24,9 @@ def spin(*a, **k):
 
 
 def dig_in(*a, **k):
-    """a target which swallows the termination request: it has to be forced"""
+    """a target which swallows the termination request: it has to be forced (called with 0 it returns at once)"""
+    if a and a[0] == 0:
+        return 0
     t0 = time.time()
     while time.time() - t0 < 120:
         try:
